@@ -112,7 +112,40 @@ def make_instances(ctx):
     return out
 
 
+def replay(ctx):
+    """bin/check C25 --replay <violation json>: repeat the saved harness process and judge its last trial again"""
+    import json
+    import re
+    v = json.load(open(ctx.replay_path))
+    rp = v.get("replay") or {}
+    m = re.search(r"run (\S+)/i\*\.smt2 < (\S+)", str(rp.get("how", "")))
+    if not m:
+        ctx.note("replay: nothing to re-run in %s (ThreadSanitizer reports are re-obtained by the normal run)" % ctx.replay_path)
+        return False
+    h, hlog = vlib.compile_harness("h_stop")
+    if not h:
+        ctx.tie_broken("harness-h_stop", hlog)
+        return True
+    d = m.group(1)
+    paths = sorted(os.path.join(d, f) for f in os.listdir(d) if f.endswith(".smt2"))
+    rc, out = vlib.sh([h, "run"] + paths, input=open(m.group(2)).read(), timeout=3000)
+    lines = [l for l in out.split("\n") if l.startswith("trial ")]
+    ref = rp.get("reference")
+    if not lines:
+        ctx.violation(v["signature"], "replay: h_stop died rc=%s: %s" % (rc, out[-300:]), rp)
+        return True
+    f = dict(x.split("=", 1) for x in lines[-1].split()[2:] if "=" in x)
+    ctx.case(key="replay:" + lines[-1], nontrivial=True, kind="replay", sample=dict(line=lines[-1], reference=ref))
+    if f["r1"] not in ("unknown", ref) or f["r2"] not in ("unknown", ref) or "bad" in (f["m1"], f["m2"]):
+        ctx.violation(v["signature"], "replay reproduces: %s (reference %s)" % (lines[-1], ref), rp)
+    else:
+        ctx.note("replay does not reproduce: %s (reference %s)" % (lines[-1], ref))
+    return True
+
+
 def run(ctx):
+    if getattr(ctx, "replay_path", None) and replay(ctx):
+        return
     _lap(ctx, "coq+build")
     # atomic: True / False as declared in the source; None when the translator did not recognise the code
     # (tie already reported broken in prepare; the implementation is still searched for a failing trial)
